@@ -20,9 +20,9 @@ let handle = function
      | (None, _) -> "ERR")
   | ["crlf"; pieces] ->
     let cs = chunks_of pieces in
-    let whole = CrLfCheck.ok_from false (Stdlib.List.concat cs) in
-    (match CrLfCheck.crlf_run false cs with
-     | Some _ -> if whole then "OK" else "MODEL-SPLIT"
-     | None -> if whole then "MODEL-SPLIT" else "ERR")
+    let data = Stdlib.List.concat cs in
+    let whole_l = CrLfCheck.ok_from false data and whole_u = Utf8Check.well_formed data in
+    let run_l = (match CrLfCheck.crlf_run false cs with Some _ -> true | None -> false) and run_u = Utf8Check.utf8_run [] cs in
+    if run_l <> whole_l || run_u <> whole_u then "MODEL-SPLIT" else if run_l && run_u then "OK" else "ERR"
   | _ -> "MODEL-ERROR unknown op"
 let () = run handle
